@@ -191,6 +191,59 @@ Proof.
     clearbody C n nu o1 o0 r1 r0 bal isc. nia.
 Qed.
 
+Theorem inc_claims_remaining_covered : forall rs d K, PII rs -> PhiI d rs <= K * (Z.of_nat NU * P18) ->
+  (forall p, In p (s_pos (r_base rs)) -> claimable_incentives rs (ps_id p) <> None) ->
+  0 <= K -> (K + Z.of_nat (length (s_pos (r_base rs)))) * Z.of_nat NU < 2 * isc_of rs ->
+  s_pos (r_base rs) <> [] ->
+  exists w1, update_uptime (r_rw rs) (p_liq (s_pool (r_base rs))) (s_time (r_base rs)) = Some w1 /\
+    zsum (iclaim_of d rs) (s_pos (r_base rs)) * P18 + remD d (rw_recs w1) < (inc_bal d rs + 1) * P18.
+Proof.
+  intros rs d K [RI [HIW FR]] HPhi HQ HK0 HK NEP. pose proof RI as [I _]. pose proof P18_pos as HP.
+  pose proof HIW as [OK [Hi [LN [HPT HRM]]]].
+  set (P := s_pos (r_base rs)) in *. set (w := r_rw rs) in *. set (cur := p_tick (s_pool (r_base rs))) in *.
+  set (pl := p_liq (s_pool (r_base rs))) in *. set (now := s_time (r_base rs)) in *.
+  assert (HL : pl = sum_liq (f_range cur) P) by apply (inv_liq _ I).
+  assert (LP : forall p, In p P -> 0 < ps_liq p).
+  { intros p Hp. pose proof (inv_pos_ok _ I) as F. rewrite Forall_forall in F. destruct (F p Hp) as [_ [X _]]. exact X. }
+  assert (NUP : 0 <= Z.of_nat NU) by lia.
+  unfold PhiI, OwedInc, isc_of in HPhi, HK. fold w P in HPhi, HK. change (cur_tick rs) with cur in HPhi.
+  set (isc := rw_inc_scaling w) in *. set (bal := inc_bal d rs) in *.
+  (* every query brings the accumulators up to date in the same way *)
+  assert (QB : forall p, In p P -> exists w1, update_uptime w pl now = Some w1 /\
+            2 * (iclaim_of d rs p * isc * P18) <= 2 * usum NU (fun u => owedU u d w1 cur p) + Z.of_nat NU * P18).
+  { intros p Hp. pose proof (HQ p Hp) as NN. unfold iclaim_of. unfold claimable_incentives in NN |- *.
+    change (r_rw rs) with w in NN |- *.
+    rewrite (in_pos_get _ _ (inv_pos_sorted _ I) Hp) in NN |- *. cbv beta iota in NN |- *.
+    change (p_tick (s_pool (r_base rs))) with cur in NN |- *. change (p_liq (s_pool (r_base rs))) with pl in NN |- *. change (s_time (r_base rs)) with now in NN |- *.
+    destruct (prepare_claim_all_incentives w cur pl now (ps_lower p) (ps_upper p) (ps_id p) (ps_join p)) as [[[[w' col] forf] byup]|] eqn:E; [|congruence].
+    destruct (claim_query_bound d w cur pl now (ps_id p) (ps_join p) w' col forf byup P p E HIW HL (in_pos_get _ _ (inv_pos_sorted _ I) Hp) LP)
+      as [w1 [EU [B _]]].
+    exists w1. split; [exact EU|exact B]. }
+  assert (NE : P <> []) by exact NEP.
+  destruct P as [|p0 P0] eqn:EP; [congruence|]. rewrite <- EP in *. assert (P0In : In p0 P) by (rewrite EP; left; reflexivity).
+    destruct (QB p0 P0In) as [w1 [EU _]].
+    destruct (stage_accrue cur w pl now w1 P d EU OK Hi LN HPT HRM HL) as [ACC [_ [_ [OK1 _]]]].
+    pose proof (remD_nonneg d _ OK1) as R1.
+    assert (SUM : forall l, (forall p, In p l -> In p P) ->
+              2 * (zsum (iclaim_of d rs) l * isc * P18) <= 2 * zsum (fun p => usum NU (fun u => owedU u d w1 cur p)) l + Z.of_nat (length l) * (Z.of_nat NU * P18)).
+    { induction l as [|a l IHl]; intro Hl; [simpl; lia|].
+      change (length (a :: l)) with (S (length l)). rewrite Nat2Z.inj_succ. cbn [zsum].
+      destruct (QB a (Hl a (or_introl eq_refl))) as [w1' [EU' Ba]]. rewrite EU in EU'. inversion EU'; subst w1'.
+      assert (Bl : forall p, In p l -> In p P) by (intros p X; apply Hl; right; exact X). specialize (IHl Bl).
+      set (ca := iclaim_of d rs a) in *. set (cl := zsum (iclaim_of d rs) l) in *.
+      replace (2 * ((ca + cl) * isc * P18)) with (2 * (ca * isc * P18) + 2 * (cl * isc * P18)) by ring.
+      unfold Z.succ. rewrite Z.mul_add_distr_r. lia. }
+    specialize (SUM P (fun p X => X)). rewrite zsum_usum in SUM.
+    change (usum NU (fun u => zsum (fun p => owedU u d w1 cur p) P)) with (OwedI d w1 cur P) in SUM. fold isc in ACC.
+    set (C := zsum (iclaim_of d rs) P) in *. set (n := Z.of_nat (length P)) in *. set (nu := Z.of_nat NU) in *.
+    set (o1 := OwedI d w1 cur P) in *. set (o0 := OwedI d w cur P) in *. set (r1 := remD d (rw_recs w1)) in *. set (r0 := remD d (rw_recs w)) in *.
+    assert (RI1 : 0 <= r1 * isc) by (clearbody r1 isc; nia).
+    exists w1. split; [exact EU|]. fold r1.
+    assert (X2 : 2 * isc * (C * P18 + r1 - bal * P18) <= (K + n) * nu * P18) by (clearbody C n nu o1 o0 r1 r0 bal isc; lia).
+    clearbody C n nu o1 o0 r1 r0 bal isc. nia.
+Qed.
+
+
 (* TOTAL_CLAIMABLE_LE_PAID (incentives): in every state reachable from a fresh pool, whatever the history, the incentives all open
    positions can claim - collected and forfeitable - are covered by the incentive account *)
 Theorem total_incentives_le_paid : forall sp spf ssc isc users t ops d, 0 < sp -> 0 <= spf <= 500000000000000000 -> 0 < isc ->
